@@ -143,6 +143,7 @@ func (fr *frame) enterLoop(b *ssa.BasicBlock, li *loopInfo, ins []edgeIn) *State
 		g, err := ctx.goal(cl.Expr)
 		if err != nil {
 			vc.warn("%s: loop %d invariant %q: %v", fr.fn, li.ordinal, cl.Text, err)
+			fr.oblige("inv-init", "", fmt.Sprintf("loop%d#%d", li.ordinal, i), entry, "false", "untranslatable: "+cl.Text+": "+err.Error(), cl.Tags)
 			continue
 		}
 		fr.oblige("inv-init", "", fmt.Sprintf("loop%d#%d", li.ordinal, i), entry, g, cl.Text, cl.Tags)
@@ -347,6 +348,7 @@ func (fr *frame) backEdge(from, to *ssa.BasicBlock, li *loopInfo, cond string, s
 			g, err := ctx.goal(cl.Expr)
 			if err != nil {
 				vc.warn("%s: loop %d iter %q: %v", fr.fn, li.ordinal, cl.Text, err)
+				fr.oblige("iter", "", fmt.Sprintf("loop%d#%d/latch%d", li.ordinal, i, latchOrd(li, from)), est, "false", "untranslatable: "+cl.Text+": "+err.Error(), cl.Tags)
 				continue
 			}
 			fr.oblige("iter", "", fmt.Sprintf("loop%d#%d/latch%d", li.ordinal, i, latchOrd(li, from)), est, g, cl.Text, cl.Tags)
